@@ -25,6 +25,7 @@ py_lstrip = z3.Function("py_lstrip", S, S)
 py_rstrip = z3.Function("py_rstrip", S, S)
 py_isspace = z3.Function("py_isspace", S, B)
 py_repeat = z3.Function("py_repeat", S, I, S)  # s * n
+py_lstrip_chars = z3.Function("py_lstrip_chars", S, S, S)  # s.lstrip(chars)
 py_chars_subset = z3.Function("py_chars_subset", S, S, B)  # frozenset(a) <= frozenset(b)
 opaque_truthy = z3.Function("opaque_truthy", Opaque, B)
 opaque_is_none = z3.Function("opaque_is_none", Opaque, B)
